@@ -47,6 +47,8 @@ def entry_sizes(b, J):
             s.add(v)
     if fsize <= 2048:
         s.add(int(2.5 * fsize))
+    if fsize <= 1024:
+        s.add(int(4.5 * fsize))      # needs three doublings of the file
     return sorted(s)
 
 
